@@ -30,6 +30,8 @@ use crate::{
 mod gossip;
 mod live;
 mod state;
+#[cfg(iroh_docs_verif)]
+pub use self::live::verif as verif_live;
 
 /// Capacity of the channel for the [`ToLiveActor`] messages.
 const ACTOR_CHANNEL_CAP: usize = 64;
